@@ -24,6 +24,9 @@ pub mod style;
 
 pub mod ast;
 
+#[cfg(fuellabs_sway_verif)]
+pub mod verif_hooks;
+
 pub type Id = [u8; Bytes32::LEN];
 pub type Contract = [u8; ContractId::LEN];
 
